@@ -83,6 +83,7 @@ def attempt(f):
 
 PRE = """From IQ Require Import Codec0 SaveFormat SaveFormat2. From IQ.gen Require Import Tables. From Coq Require Import QArith.
 Open Scope Z_scope.
+Definition SB := @SB@.   (* string writers of the code under test: true = the prefix is the number of UTF-8 bytes (fixes/C15_string_length_in_bytes.diff), false = the number of characters *)
 Definition RR := @RR@.   (* gene header layout of the code under test: true = with the reference window of the reads (fixes/C18_serialize_read_region.diff), false = without *)
 Definition SG := @SG@.   (* how read_dict of the code under test reads integer values: true = read_int_neg (fixes/C15_read_dict_sign.diff), false = read_int *)
 Definition lenb {A} (l:list A) : Z := Z.of_N (fold_left (fun n _ => N.succ n) l 0%N).
@@ -95,9 +96,12 @@ Definition is_ok {A} (o:outcome A) : bool := match o with Ok _ => true | _ => fa
 Definition wr_eqb := outcome_eqb bytes_eqb.
 Definition u_ok (w:nat) (v:Z) := (0 <=? v) && (v <? Z.of_N (256 ^ N.of_nat w)).
 Definition s31_ok (v:Z) := (-2147483648 <? v) && (v <? 2147483648).
-Definition ascii_ok (s:str) := forallb (fun c => (c <? 128)%N) s.
-Definition str_ok (s:str) := ascii_ok s && (lenb s <? 65536).
-Definition ostr_ok (o:option str) := match o with None => true | Some s => ascii_ok s && (lenb s <? 65535) end.
+(* the documented domain of strings: any text (Unicode scalar values) whose UTF-8 encoding is short enough - for BOTH variants of the code under test
+   (the writer that counts characters violates it on every non-ASCII string: known finding C15:string-length-in-characters) *)
+Definition text_ok (s:str) := forallb scalar s.
+Definition str_ok (s:str) := text_ok s && (blen s <? 65536)%N.
+Definition ostr_ok (o:option str) := match o with None => true | Some s => text_ok s && (blen s <? 65535)%N end.
+Definition c_strx : codec str := if SB then c_str else c_str_unrepaired.
 Definition dval_ok (v:dval) := match v with DInt x => s31_ok x | DStr s => str_ok s | DPair a b => s31_ok a && s31_ok b end.
 Fixpoint nodupb (l:list str) : bool := match l with [] => true | x :: t => negb (existsb (str_eqb x) t) && nodupb t end.
 Definition dict_ok (d:dict) := forallb (fun e => str_ok (fst e) && dval_ok (snd e)) d && nodupb (map fst d).
@@ -130,12 +134,12 @@ Definition check (c:pcase) : bool :=
   match c with
   | PInt w v wr rd => wr_eqb (write_int_chk w v) wr && after wr [] (u_dec w) Z.eqb rd
   | PNeg v wr rd => wr_eqb (write_int_neg_chk v) wr && after wr [] (dec c_neg) Z.eqb rd
-  | PStr s t wr rd => wr_eqb (write_string_chk s) wr && after wr t (dec c_str) str_eqb rd
-  | PStrOpt o t wr rd => wr_eqb (write_string_or_none_chk o) wr && after wr t (dec c_str_opt) ostr_eqb rd
+  | PStr s t wr rd => wr_eqb (write_string_chk SB s) wr && after wr t (dec c_str) str_eqb rd
+  | PStrOpt o t wr rd => wr_eqb (write_string_or_none_chk SB o) wr && after wr t (dec c_str_opt) ostr_eqb rd
   | PBools l wr rd => wr_eqb (write_bool_array_chk l) wr && after wr [] (dec (c_bools (length l))) bools_eqb rd
   | PListInt l wr rd => wr_eqb (write_list_chk c_u32 l) wr && after wr [] (dec (c_listg c_u32)) zs_eqb rd
   | PListNeg l wr rd => wr_eqb (write_list_chk c_neg l) wr && after wr [] (dec c_negs) zs_eqb rd
-  | PListStr l wr rd => wr_eqb (write_list_chk c_str l) wr && after wr [] (dec c_strs) strs_eqb rd
+  | PListStr l wr rd => wr_eqb (write_list_chk c_strx l) wr && after wr [] (dec c_strs) strs_eqb rd
   | PPairs l wr rd => wr_eqb (write_list_chk c_zpair l) wr && after wr [] (dec c_pairs) (list_eqb zz_eqb) rd
   | PDict d t wr rd => wr_eqb (Ok (enc (c_dict SG) d)) wr && after wr t (dec (c_dict SG)) dict_eqb rd
   | RNeg b rd => rd_eqb Z.eqb (dec c_neg b) rd
@@ -261,7 +265,14 @@ def run(ctx):
         b = io.BytesIO(); g.serialize(b); b.seek(0); g2 = GeneInfo.deserialize(b, None)
         return (g2.all_read_region_start, g2.all_read_region_end) == (50, 300) and b.tell() == len(b.getvalue())
     window = attempt(probe_window) == ("ok", True)
-    sub = lambda t: t.replace("@SG@", "true" if signed else "false").replace("@RR@", "true" if window else "false")
+    def probe_bytes():
+        b = io.BytesIO(); S.write_string("\u00e9a", b); S.write_string_or_none("\u4e2d", b); b.seek(0)
+        return (S.read_string(b), S.read_string_or_none(b)) == ("\u00e9a", "\u4e2d") and b.tell() == len(b.getvalue())
+    bytelen = attempt(probe_bytes) == ("ok", True)
+    sub = lambda t: t.replace("@SG@", "true" if signed else "false").replace("@RR@", "true" if window else "false").replace("@SB@", "true" if bytelen else "false")
+    KEY_STR = "C15:string-length-in-characters"
+    ctx.notes.append("string writers of the code under test: %s" % ("length prefix in UTF-8 bytes (fixes/C15_string_length_in_bytes.diff): records are generated with non-ASCII strings" if bytelen else
+                                                                    "length prefix in characters (before fixes/C15_string_length_in_bytes.diff): records are generated with ASCII strings, non-ASCII ones only at the primitives - known finding"))
     pre_prim = sub(PRE_PRIM); pre_obj = sub(PRE_OBJ)
     ctx.notes.append("gene header layout of the code under test: %s" % ("with the reference window of the reads (all_read_region_start / _end; fixes/C18_serialize_read_region.diff)" if window else
                                                                          "without the reference window (before fixes/C18_serialize_read_region.diff): the reader takes the gene region for it, generated headers have window = gene region"))
@@ -279,6 +290,9 @@ def run(ctx):
         r = rnd.random()
         if r < .1: return ""
         if r < .15: return "".join(chr(rnd.randrange(0, 128)) for _ in range(rnd.randint(1, 8)))       # control characters are ASCII too
+        if r < .4 and bytelen:       # 1-, 2-, 3- and 4-byte code points mixed (no surrogates: a Python str with one cannot be encoded)
+            return "".join(chr(rnd.choice([rnd.randrange(32, 127), rnd.randrange(128, 0x800), rnd.randrange(0x800, 0xd800), rnd.randrange(0xe000, 0x10000), rnd.randrange(0x10000, 0x110000)]))
+                           for _ in range(rnd.randint(1, min(maxlen, 12))))
         if r < .18: return "".join(rnd.choice(PRINTABLE) for _ in range(rnd.choice([255, 256, 257, 300, 1000])))
         return "".join(rnd.choice(PRINTABLE) for _ in range(rnd.randint(1, maxlen)))
     def g_ostr(): return None if rnd.random() < .25 else g_str()
@@ -388,6 +402,7 @@ def run(ctx):
     def key_of(o):
         d = o.get("diff")
         if d and all("/info/" in p or "/attrs/" in p or p.startswith("/dict/") for p in d) and o.get("dict_sign"): return "C15:dict-negative-int"
+        if o.get("non_ascii") and not bytelen: return KEY_STR
         return None
     def dict_sign(orig, got):
         """every differing dictionary value is an int v < 0 read back as 2^31 + |v|"""
@@ -437,20 +452,20 @@ def run(ctx):
             wr = attempt(lambda: (lambda b: (S.write_int_neg(v, b), b.getvalue())[1])(io.BytesIO()))
             rd = rd_with(S.read_int_neg, wr[1], None) if wr[0] == "ok" else ("raises", "EOFError")
             add("PNeg %s %s %s" % (cz(v), cout(wr, cbs), cout(rd, lambda o: "(%s, %s)" % (cz(o[0]), cz(o[1])))), {"prim": "write_int_neg", "value": v, "written": jd(wr), "read": jd(rd)})
-        # strings (ASCII = documented domain; non-ASCII and the length boundaries are outside: the model must still agree)
+        # strings (documented domain: any text whose UTF-8 encoding is shorter than 2^16 bytes; the length boundaries in characters and in bytes are outside: the model must still agree)
         svals = ["", "a", "+", "NA", "A" * 255, "A" * 256, "x" * 65534, "\x00", "\x7f", "a\x00b", "é", "éa", "aé", "éé", "naïve", "中文", "\U0001F600", "a\U0001F600bc",
-                 "߿", "ࠀ", "￿", "\U00010000", "\U0010ffff", "x" * 65535, "x" * 65536] + [g_str(80) for _ in range(120 if quick else 600)]
+                 "߿", "ࠀ", "￿", "\U00010000", "\U0010ffff", "x" * 65535, "x" * 65536, "\u00e9" * 32767, "\u00e9" * 32768, "a" + "\U0001F600" * 16383, "\U0001F600" * 16384] + [g_str(80) for _ in range(120 if quick else 600)]
         svals += ["".join(chr(rnd.choice([rnd.randrange(32, 127), rnd.randrange(128, 0x800), rnd.randrange(0x800, 0xd800), rnd.randrange(0x10000, 0x110000)])) for _ in range(rnd.randint(1, 6))) for _ in range(60)]
         for s in svals:
             trail = bytes(rnd.choice([65, 0x80, 0xa9, 0, 255]) for _ in range(rnd.choice([0, 2, 5])))
             wr = attempt(lambda: (lambda b: (S.write_string(s, b), b.getvalue())[1])(io.BytesIO()))
             rd = rd_with(S.read_string, wr[1] + trail, None) if wr[0] == "ok" else ("raises", "EOFError")
-            add("PStr %s %s %s %s" % (cs(s), cbs(trail), cout(wr, cbs), cout(rd, lambda o: "(%s, %s)" % (cs(o[0]), cz(o[1])))), {"prim": "write_string", "value": s if len(s) < 200 else "%r * %d" % (s[0], len(s)), "trailing": trail.hex(), "read": jd(rd) if len(s) < 200 else rd[0]})
-        for s in [None, "", "a", "x" * 65534, "x" * 65535, "x" * 65536, "é", "éab"] + [g_ostr() for _ in range(80)]:
+            add("PStr %s %s %s %s" % (cs(s), cbs(trail), cout(wr, cbs), cout(rd, lambda o: "(%s, %s)" % (cs(o[0]), cz(o[1])))), {"prim": "write_string", "value": s if len(s) < 200 else "%r * %d" % (s[-1], len(s)), "trailing": trail.hex(), "read": jd(rd) if len(s) < 200 else rd[0], "non_ascii": not s.isascii()})
+        for s in [None, "", "a", "x" * 65534, "x" * 65535, "x" * 65536, "é", "éab", "\u4e2d\u6587", "g\U0001F600", "\u00e9" * 32767, "a" + "\u00e9" * 32767, "\u00e9" * 32768] + [g_ostr() for _ in range(80)]:
             trail = bytes(rnd.choice([65, 0x80, 0]) for _ in range(rnd.choice([0, 3])))
             wr = attempt(lambda: (lambda b: (S.write_string_or_none(s, b), b.getvalue())[1])(io.BytesIO()))
             rd = rd_with(S.read_string_or_none, wr[1] + trail, None) if wr[0] == "ok" else ("raises", "EOFError")
-            add("PStrOpt %s %s %s %s" % (cos(s), cbs(trail), cout(wr, cbs), cout(rd, lambda o: "(%s, %s)" % (cos(o[0]), cz(o[1])))), {"prim": "write_string_or_none", "value": s if s is None or len(s) < 200 else "%r * %d" % (s[0], len(s)), "read": jd(rd) if s is None or len(s) < 200 else rd[0]})
+            add("PStrOpt %s %s %s %s" % (cos(s), cbs(trail), cout(wr, cbs), cout(rd, lambda o: "(%s, %s)" % (cos(o[0]), cz(o[1])))), {"prim": "write_string_or_none", "value": s if s is None or len(s) < 200 else "%r * %d" % (s[-1], len(s)), "read": jd(rd) if s is None or len(s) < 200 else rd[0], "non_ascii": s is not None and not s.isascii()})
         # bool arrays: every array of up to 4 flags, random ones of 5..9
         bvals = [list(t) for n in range(0, 5) for t in itertools.product([False, True], repeat=n)] + [[rnd.random() < .5 for _ in range(n)] for n in (5, 6, 7, 8, 8, 8, 9, 9, 12) for _ in range(4)] + [[True] * 8, [True] * 9]
         for l in bvals:
@@ -464,7 +479,7 @@ def run(ctx):
                 l = [gen() for _ in range(n)]
                 wr = attempt(lambda: (lambda b: (S.write_list(l, b, wf), b.getvalue())[1])(io.BytesIO()))
                 rd = rd_with(lambda s: S.read_list(s, rf), wr[1], None) if wr[0] == "ok" else ("raises", "EOFError")
-                add("%s %s %s %s" % (kind, pr(l), cout(wr, cbs), cout(rd, lambda o: "(%s, %s)" % (pr(o[0]), cz(o[1])))), {"prim": "write_list/" + kind, "value": l, "read": jd(rd)})
+                add("%s %s %s %s" % (kind, pr(l), cout(wr, cbs), cout(rd, lambda o: "(%s, %s)" % (pr(o[0]), cz(o[1])))), {"prim": "write_list/" + kind, "value": l, "read": jd(rd), "non_ascii": kind == "PListStr" and any(not x.isascii() for x in l)})
             l = [(g_u32(), g_u32()) for _ in range(n)]
             wr = attempt(lambda: (lambda b: (S.write_list_of_pairs(l, b, S.write_int), b.getvalue())[1])(io.BytesIO()))
             rd = rd_with(lambda s: S.read_list_of_pairs(s, S.read_int), wr[1], None) if wr[0] == "ok" else ("raises", "EOFError")
@@ -518,7 +533,7 @@ def run(ctx):
                                                  ("NONE_STR_LEN", "65535", S.NONE_STR_LEN), ("undefined_position < 2^32", "1", int(SMC.undefined_position < (1 << 32)))]):
             add("RConst %d%%N %s %s" % (i, model, cz(impl)), {"constant": name, "impl": impl})
         ctx.rule("primitives: every write_*/read_* of serialization.py on boundary values (0, 2^8, 2^16, 2^31, 2^32 -+ 1, negative, |v| >= 2^31 for the sign-bit ints; strings of length 0, 255, 256, 65534, 65535, 65536, "
-                 "control characters, non-ASCII of every UTF-8 length; every bool array of <= 4 flags and every byte value on reading; dictionaries with str / negative int / int-pair values) + random values; "
+                 "control characters, non-ASCII of every UTF-8 length, encodings of 65534 / 65535 / 65536 bytes; every bool array of <= 4 flags and every byte value on reading; dictionaries with str / negative int / int-pair values) + random values; "
                  "exceptions are compared as exception classes; readers also on bytes no writer produced (invalid UTF-8, unknown dictionary tags, duplicate keys, sign bit with zero magnitude); non-trivial = all")
         mism, viol = ctx.corr("primitives", pre_prim, cases, shard=250)
         ctx.corr_report("primitives", mism, viol, keyfn=key_of)
@@ -574,6 +589,16 @@ def run(ctx):
             if not isinstance(m2["pen"], float): pyviol.append({"record": "IsoformMatch", "diff": ["/pen:type"], "original": jd(m)})
             cases.append(("CMatch %s %s %s" % (cmatch(m), cbs(b), cmatch(m2)), {"record": "IsoformMatch", "fields": jd(m), "bytes": b.hex() if len(b) < 2000 else len(b), "diff": d}))
         ras = [g_ra() for _ in range(n_ra)]
+        if not bytelen:
+            # corpus for the writer that stores the number of characters: one record with a non-ASCII read id / group name / gene id through the real round trip
+            a = dict(g_ra(), read_id="read_\u00e9_1", group="gruppe_\u00e4", matches=[dict(g_match(0), gene="g\u00e8ne", tr="T1")])
+            try:
+                b_ = ser(mk_ra(a)); got = attempt(lambda: e_ra(f_ra(ReadAssignment.deserialize(Strict(b_), gi))))
+                if got[0] != "ok" or diff(q_ra(a), got[1]):
+                    ctx.violation(KEY_STR, "ReadAssignment with non-ASCII strings: the real deserialize does not return what was serialized (write_string stores the number of characters, read_string takes that many bytes)",
+                                  {"record": jd(a), "read_back": jd(got[1]) if got[0] == "ok" else got[1]})
+            except Exception as e:
+                ctx.violation(KEY_STR, "ReadAssignment with non-ASCII strings: serialize raises %s" % type(e).__name__, {"record": jd(a)})
         ras += [dict(g_ra(), type=t, gene_type=t2) for t in RAT for t2 in (RAT.unique, t)]
         ras += [dict(g_ra(), flags=list(f)) for f in itertools.product([False, True], repeat=3)]
         ras += [dict(g_ra(), matches=[], info={}, attrs={}, corrected=[], exon_profile=[], intron_profile=[], read_id="", group="", chr="")]
@@ -630,7 +655,8 @@ def run(ctx):
             pycheck("GeneInfo header", g, g2)
             cases.append(("CGene %s %s %s" % (cgene(g), cbs(b), cgene(g2)), {"record": "GeneInfo header", "fields": jd(g), "bytes": b.hex()}))
         ctx.rule("records: real MatchEvent / IsoformMatch / ReadAssignment / BasicReadAssignment / GeneInfo objects with random and edge-value fields (every enum member, None and empty ids, "
-                 "undefined/extra region sentinels, negative event offsets, -1 polyA sentinels, empty lists, 65 535-character read id, float penalties that are not multiples of 2^-20) "
+                 "undefined/extra region sentinels, negative event offsets, -1 polyA sentinels, empty lists, 65 535-character read id, float penalties that are not multiples of 2^-20; where the code under test stores string lengths in bytes: "
+                 "read ids, group names, chromosome names, gene / isoform ids, dictionary keys and values with 2-, 3- and 4-byte code points) "
                  "serialized by the real code; each ReadAssignment is read by ReadAssignment.deserialize AND BasicReadAssignment.deserialize_from_read_assignment with trailing bytes behind it; "
                  "pickle.loads(pickle.dumps(x)) of every BasicReadAssignment (its __getstate__ / __setstate__ codec, used between processes with --high_memory) and of every ReadAssignment (default pickling), protocols default / highest / 2, "
                  "field by field, types included; non-trivial = all")
